@@ -92,12 +92,13 @@ type SpecDB struct {
 	PureIface map[string]bool // "pkg/path.Iface.Method" or "*.Method"
 	PurePkgs  map[string]bool
 	CodecPkgs map[string]bool
+	Immutable map[string]string // heap-array name prefix of an immutable field -> pkg.Type.field
 	Files     []string
 	Assumes   int
 }
 
 func newSpecDB() *SpecDB {
-	return &SpecDB{Contracts: map[string]*Contract{}, Macros: map[string]*SpecMacro{}, UFs: map[string]*UFDecl{}, PureIface: map[string]bool{}, PurePkgs: map[string]bool{}, CodecPkgs: map[string]bool{}}
+	return &SpecDB{Contracts: map[string]*Contract{}, Macros: map[string]*SpecMacro{}, UFs: map[string]*UFDecl{}, PureIface: map[string]bool{}, PurePkgs: map[string]bool{}, CodecPkgs: map[string]bool{}, Immutable: map[string]string{}}
 }
 
 // rewriteImp turns the infix implication a ==> b (lowest precedence, right
@@ -261,7 +262,7 @@ func (db *SpecDB) loadSpecFile(path, pkgPath string) error {
 		lines = append(lines, rawLine{body, i + 1})
 	}
 	// join continuation lines: a line whose first word is not a keyword / directive continues the previous one
-	directives := map[string]bool{"func": true, "extern": true, "spec": true, "uf": true, "axiom": true, "lemma": true, "iface": true, "end": true, "purefn": true, "purepkg": true, "codecpkg": true}
+	directives := map[string]bool{"func": true, "extern": true, "spec": true, "uf": true, "axiom": true, "lemma": true, "iface": true, "end": true, "purefn": true, "purepkg": true, "codecpkg": true, "immutable": true}
 	var joined []rawLine
 	for _, l := range lines {
 		w := firstWord(l.text)
@@ -368,6 +369,14 @@ func (db *SpecDB) loadSpecFile(path, pkgPath string) error {
 			// generated (de)serialiser packages: methods modify only their receiver and the bin.Buffer argument
 			for _, f := range strings.Fields(rest) {
 				db.CodecPkgs[f] = true
+			}
+		case "immutable":
+			// immutable Type.field ...: fields written only while the object is built (checked
+			// syntactically over the loaded packages); havocs by unknown code leave them alone
+			for _, f := range strings.Fields(rest) {
+				if i := strings.Index(f, "."); i > 0 && pkgPath != "" {
+					db.Immutable["H$"+sanitize(pkgPath+"."+f[:i])+"$."+f[i+1:]] = pkgPath + "." + f
+				}
 			}
 		case "purepkg":
 			// every function of these packages is effect-free for the code under verification
